@@ -21,6 +21,11 @@ type InstCfg struct {
 	// queried: "" never | block | undo | all. The oracle's own query comes at the end of every
 	// history, so the four values are the query schedules closed under operation kind.
 	SizeQ string
+	// QueryQ: after which operations of the history the whole read-only query set (roots, leaf
+	// count, GetStump, every look-up, Prove / Verify of the tracked sets, sizes) is run on the
+	// instance and its answers thrown away: "" never | block | undo | all. Queries must not change
+	// later answers, and nothing they leave behind may go stale.
+	QueryQ string
 }
 
 func (c InstCfg) Name() string {
@@ -30,11 +35,18 @@ func (c InstCfg) Name() string {
 	}
 	switch c.Kind {
 	case "map":
-		if c.Full {
-			return fmt.Sprintf("MapPollard(full,TR=%d)", c.TR)
+		q := ""
+		if c.QueryQ != "" {
+			q = "[queried after " + c.QueryQ + "]"
 		}
-		return fmt.Sprintf("MapPollard(partial:%s,TR=%d)", c.Mode, c.TR)
+		if c.Full {
+			return fmt.Sprintf("MapPollard(full,TR=%d)%s", c.TR, q)
+		}
+		return fmt.Sprintf("MapPollard(partial:%s,TR=%d)%s", c.Mode, c.TR, q)
 	case "pollard":
+		if c.QueryQ != "" {
+			return "Pollard[queried after " + c.QueryQ + "]"
+		}
 		if c.SizeQ != "" {
 			return "Pollard[size queried after " + c.SizeQ + "]"
 		}
@@ -223,6 +235,17 @@ func (f *HistFamily) run(x *Exec, hist []Op) ([]*inst, *histModel, bool) {
 				_ = in.pol.SerializeSize()
 				_ = in.pol.GetTotalCount()
 			}
+		}
+		var queried []*inst
+		for _, in := range insts {
+			if !in.broken && in.stump == nil && (in.cfg.QueryQ == "all" || in.cfg.QueryQ == op.Kind) {
+				queried = append(queried, in)
+			}
+		}
+		if len(queried) > 0 {
+			qf := *f
+			qf.Or = HistOracle{Roots: true, Proofs: true, Lookups: true, Sizes: true, ProofSets: "small", Prop: "suppressed"}
+			qf.observe(NewExec("suppressed", func() Case { return Case{} }), queried, md, false)
 		}
 	}
 	return insts, md, ok
@@ -910,4 +933,23 @@ func (f *HistFamily) observeStale(x *Exec, prop string, insts []*inst, md *histM
 		}
 	}
 	return evals
+}
+
+// queriedFamily: instances that are queried (the whole read-only query set) after the blocks, after
+// the undos or after every operation of a history, next to one that is only queried at the end;
+// the calling property's oracle is evaluated at the end of every history.
+func queriedFamily(c *Ctx, or HistOracle) {
+	var insts []InstCfg
+	for _, base := range []InstCfg{{Kind: "pollard"}, {Kind: "map", Full: true, TR: 0}, {Kind: "map", Full: false, TR: 0, Mode: "all"}, {Kind: "map", Full: false, TR: 63, Mode: "even"}} {
+		for _, q := range []string{"block", "undo", "all"} {
+			v := base
+			v.QueryQ = q
+			insts = append(insts, v)
+		}
+	}
+	n := pick(c, 3, 4)
+	c.Cov.Bound["queried_instances"] = fmt.Sprintf("Nmax=%d, undo budget 2; Pollard, MapPollard full / partial queried after blocks / undos / every operation", n)
+	if !c.Expired() {
+		BFS(c, &HistFamily{Nmax: n, Insts: insts, Or: or, UndoBud: 2, PermLimit: 2}, 0)
+	}
 }
